@@ -61,6 +61,8 @@ def param_set(rng: np.random.Generator) -> dict:
         p = np.sort(rng.uniform(120.0, 9000.0, n))
         if rng.random() < 0.5:
             p = np.roll(p, 1)   # not ascending, and the sorting permutation is a cycle (not its own inverse)
+        if rng.random() < 0.25:
+            p = np.round(p).astype(np.int64)   # whole-number pressures in an integer array
         vals = [*f.values(), *a.values(), *p.tolist()]
         ok = all(abs(x - y) > 1e-3 * max(abs(x), abs(y)) for i, x in enumerate(vals) for y in vals[i + 1:])
         if ok and abs(f["salinity"] - 15.0) > 0.2:
